@@ -5,7 +5,7 @@ RULE = ("random BMP session histories (peer up/down cycles, route traffic, End-o
         "/metrics exposition of the state machine read at random quiescent points and at the end; non-trivial = at least one metrics read "
         "after a peer went down or after an invalid message; RIB unit: histories of BGP sessions with disjoint prefixes (announce, re-announce, "
         "one withdrawal per route) and arbitrary pipeline histories (shared prefixes, withdrawals of anything, flaps, session ends) with the "
-        "RIB unit's own counters read from its rendered /metrics text at random points (op MR); non-trivial there = a read that shows a count")
+        "RIB unit's own counters read from its rendered /metrics text at random points (op MR: against the model; the last read of an arbitrary history, op MRS: also against the descriptions of the metrics); non-trivial there = a read that shows a count")
 
 
 def gen(rng, tier):
@@ -16,7 +16,8 @@ def gen(rng, tier):
 
 def rib_clean_case(rng):
     """BGP sessions with disjoint prefixes; a route is announced (and re-announced), withdrawn at most once while active and never
-    announced again, no session ends: the histories on which the RIB unit's counters say what their descriptions say"""
+    announced again, no session ends: the histories on which the RIB unit's counters say what their descriptions say. Read with MR
+    (code against model): the shrinker cannot turn a changed bump into an instance of finding C15-6 (which MRS reads show)"""
     ops = ["O 0", "O 1"]
     own = {0: [1, 2, 3], 1: [4, 5, 6]}
     active = {0: set(), 1: set()}
@@ -45,15 +46,15 @@ def rib_any_case(rng):
     ops = pipegen.gen_case(rng, peers=[0, 3, 5, 6, 8], metrics=True, bgp=True, query_ops=False, length=(8, 40)).split(";")
     for _ in range(rng.range(1, 4)):
         ops.insert(rng.below(len(ops) + 1), "MR")
-    return ";".join(ops + ["MR"])
+    return ";".join(ops + ["MRS"])
 
 
 # finding C15-6 (RIB unit counters), one history per face; generated last so that they are looked at after everything else
 RIB_FINDING_CASES = [
-    "O 0;O 1;A 0 0 1 1 0 -;A 1 0 2 1 0 -;MR",          # two routes stored for one prefix: num_items 1
-    "O 0;A 0 0 1 1 0 -;A 0 0 0 - 0 1;A 0 0 0 - 0 1;MR",  # withdrawn twice: num_routes_announced wraps below zero
-    "O 0;A 0 0 1 1 0 -;Z 0;MR",                          # the session ends: num_routes_announced still 1
-    "O 0;A 0 0 0 - 0 1;MR",                              # withdrawal of a never announced route: a hard insert failure
+    "O 0;O 1;A 0 0 1 1 0 -;A 1 0 2 1 0 -;MRS",          # two routes stored for one prefix: num_items 1
+    "O 0;A 0 0 1 1 0 -;A 0 0 0 - 0 1;A 0 0 0 - 0 1;MRS",  # withdrawn twice: num_routes_announced wraps below zero
+    "O 0;A 0 0 1 1 0 -;Z 0;MRS",                          # the session ends: num_routes_announced still 1
+    "O 0;A 0 0 0 - 0 1;MRS",                              # withdrawal of a never announced route: a hard insert failure
 ]
 
 
